@@ -18,7 +18,7 @@ RULE = ("k<=4 fibers over a common shape; per fiber and coordinate a state is dr
         "completely. Non-trivial: >=2 operands non-empty, an explicit default or empty sub-fiber somewhere, "
         "and a non-empty symmetric difference. Distinct = SHA-1 of the case.")
 ASSUMPTIONS = ["operands are ordered, unique fibers with a shape (what the merge operators assert)",
-               "format U only on owned fibers (set through Tensor.setFormat)",
+               "format U on owned fibers (Tensor.setFormat) and on unowned leaf fibers (their own rank attributes)",
                "mixed-arity matching is claimed for & only (as the statement and the tests have it)"]
 
 
@@ -50,8 +50,10 @@ def fiber_desc(draw, shape, nested, default, allow_u=True):
                 continue
             elems.append([c, default if s == "xdefault" else draw(gen.nondefault_values(default))])
     owned = draw(st.booleans())
-    fmt = draw(st.sampled_from(["C", "C", "C", "U"])) if (owned and allow_u) else "C"
-    return {"elems": elems, "owned": owned, "fmt": fmt}
+    # (an unowned fiber declares its format in its own rank attributes; nested unowned fibers stay compressed:
+    # an unowned interior fiber does not know the default of the level below)
+    fmt = draw(st.sampled_from(["C", "C", "C", "U"])) if ((owned or not nested) and allow_u) else "C"
+    return {"elems": elems, "owned": owned, "fmt": fmt, "default": default}
 
 
 @st.composite
@@ -60,7 +62,9 @@ def cases(draw):
     nested = draw(st.booleans())
     default = draw(st.sampled_from([0, 0, 0, 2]))
     k = draw(st.sampled_from([2, 2, 2, 3, 4]))
-    fibers = [draw(fiber_desc(shape, nested, default)) for _ in range(k)]
+    # (each side has its own default: now and then the operands disagree about it)
+    other = draw(st.sampled_from([None, None, None, 5, 0, 2]))
+    fibers = [draw(fiber_desc(shape, nested, default if (other is None or i % 2 == 0) else other)) for i in range(k)]
     return {"shape": shape, "nested": nested, "default": default, "fibers": fibers,
             "prior": draw(st.integers(0, 15))}
 
@@ -129,6 +133,8 @@ def build_operand(desc, shape, nested, default, idx):
             t.setFormat("M", "U")
         return t.getRoot(), t
     f = build.build_fiber(spec, name_ranks=True)
+    if desc["fmt"] == "U":
+        f.getRankAttrs().setFormat("U")
     return f, None
 
 
@@ -158,7 +164,7 @@ class Operand:
         self.default = default
         self.snap0 = observe.snap(self.fiber)
         self.ranks0 = observe.rank_lists(self.tensor) if self.tensor else None
-        self.seen_fresh = set()
+        self.fresh_now = []
 
     def check_payload(self, c, p, where):
         """p must be the stored payload at c, or a fresh default if c is absent"""
@@ -170,6 +176,7 @@ class Operand:
                                 f"(got {p!r}, stored {want!r})")
             return
         # absent (or U-format hole): fresh default
+        _distinct(self, c, p, where)
         if id(p) in self.stored_ids:
             raise Violation("default-aliased", f"{where}: default for absent coordinate {c} is a stored payload")
         if self.nested:
@@ -206,7 +213,7 @@ def _only_appended_empty(op, now):
     return True
 
 
-def iterate(lazy, where):
+def _iterate(lazy, where):
     out = []
     last = None
     for cp in lazy:
@@ -227,7 +234,7 @@ def tup(p, where, n):
 
 def check(case, rec):
     shape, nested, default = case["shape"], case["nested"], case["default"]
-    ops = [Operand(d, shape, nested, default, i) for i, d in enumerate(case["fibers"])]
+    ops = [Operand(d, shape, nested, d.get("default", default), i) for i, d in enumerate(case["fibers"])]
     # earlier, unrelated public calls may have left a saved position on an operand: the operators
     # must not depend on it
     for i, o in enumerate(ops):
@@ -242,6 +249,14 @@ def check(case, rec):
     def after(where):
         for o in ops:
             o.unchanged(where, rec)
+
+    def iterate(lazy, where):
+        # the defaults delivered during one traversal are all kept alive in the result, so object identity
+        # decides whether each absent side got a default of its own
+        bag = []
+        for o in ops:
+            o.fresh_now = bag
+        return _iterate(lazy, where)
 
     # ---- a & b
     for rep in range(2):
@@ -349,11 +364,13 @@ def check(case, rec):
 
     # ---- classification
     nonempty = sum(1 for s in sets if s)
-    noisy = any((model.has_explicit_default(d["elems"], 2 if nested else 1, default)
+    noisy = any((model.has_explicit_default(d["elems"], 2 if nested else 1, d.get("default", default))
                  or (nested and any(len(ch) == 0 for _, ch in d["elems"]))) for d in case["fibers"])
     rec.cls("nested", nested)
     rec.cls("leaf", not nested)
     rec.cls("has-U", any(d["fmt"] == "U" for d in case["fibers"]))
+    rec.cls("unowned-U", any(d["fmt"] == "U" and not d["owned"] for d in case["fibers"]))
+    rec.cls("defaults-differ", len({d.get("default", default) for d in case["fibers"]}) > 1)
     rec.cls("owned-nonleaf", nested and any(d["owned"] for d in case["fibers"]))
     rec.cls(f"k{k}")
     rec.cls("noisy", noisy)
@@ -369,12 +386,18 @@ def _nonempty(o, c):
     return ch != o.default
 
 
+def _distinct(o, c, p, where):
+    if any(p is q for q in o.fresh_now):
+        raise Violation("default-shared", f"{where}: the default delivered for the absent side at {c} is an object "
+                        f"already delivered earlier in the same traversal ({p!r})")
+    o.fresh_now.append(p)
+
+
 def _fresh(o, c, p, where):
     """payload for a side that does not present c: a fresh default"""
     if id(p) in o.stored_ids:
         raise Violation("default-aliased", f"{where}: default for absent coordinate {c} is a stored payload of the operand")
-    if id(p) in o.seen_fresh:
-        pass  # ids may be recycled after garbage collection; not asserted
+    _distinct(o, c, p, where)
     if o.nested:
         if not isinstance(p, Fiber) or len(p.coords) != 0:
             raise Violation("default-value", f"{where}: default for absent {c} is {p!r}, expected an empty fiber")
@@ -403,7 +426,7 @@ def check_tuple(case, rec):
                "-": (lambda: fa - fb, [c for c in pa if c not in set(pb)])}
         for name, (mk, want) in ops.items():
             for rep in range(2):
-                got = iterate(mk(), f"tuple a{name}b")
+                got = _iterate(mk(), f"tuple a{name}b")
                 if [c for c, _ in got] != want:
                     raise Violation("tuple-coords", f"a{name}b yields {[c for c, _ in got]}, expected {want}; a={ca} b={cb}")
                 for c, p in got:
@@ -437,7 +460,7 @@ def check_tuple(case, rec):
         else:
             want = [(c, prefix(c, ara), c) for c in pb if prefix(c, ara) in set(pa)]
         for rep in range(2):
-            got = iterate(fa & fb, "mixed a&b")
+            got = _iterate(fa & fb, "mixed a&b")
             if [c for c, _ in got] != [w[0] for w in want]:
                 raise Violation("mixed-coords", f"mixed-arity a&b yields {[c for c, _ in got]}, expected "
                                 f"{[w[0] for w in want]}; a={ca} b={cb}")
